@@ -121,7 +121,16 @@ func genC20Workflow(c *Chooser, wi int) string {
 				}
 			}
 			if s := c20Shell(c, "world.stepshell"); s != "" {
-				fmt.Fprintf(&b, "        shell: %s\n", s)
+				if c.Weighted("world.shellfirst", 1, 4) {
+					// the same step with its keys in the other order: shell: before run:
+					txt := b.String()
+					at := strings.LastIndex(txt, "      - run:")
+					b.Reset()
+					b.WriteString(txt[:at])
+					fmt.Fprintf(&b, "      - shell: %s\n        %s", s, txt[at+len("      - "):])
+				} else {
+					fmt.Fprintf(&b, "        shell: %s\n", s)
+				}
 			}
 		}
 	}
@@ -373,6 +382,11 @@ func (c20) Eval(c *Chooser, env *Env) *Outcome {
 		w.API = APIMain
 		w.Args = []string{"-format", "{{json .}}", "-no-color", "-shellcheck=" + w.Opts.Shellcheck, "-pyflakes=" + w.Opts.Pyflakes}
 		w.Args = append(w.Args, w.Files...)
+	}
+	if !viaMain && c.Weighted("world.ruleshook", 1, 8) {
+		// a library user's OnRulesCreated hook reorders or prunes the rule list: the tool rules come first
+		w.Opts.RulesHook = []string{"tools-first", "tools-only"}[c.Int("world.ruleshookkind", 2)]
+		o.probe("rules_hook", 1)
 	}
 	o.World = w
 	// reference model
